@@ -153,7 +153,15 @@ func plain(in []Inline) string {
 		case Strong:
 			sb.WriteString(plain(v.C))
 		case Code:
-			sb.WriteString(v.S)
+			sb.WriteString(strings.ReplaceAll(v.S, "\n", " "))
+		case Auto:
+			if v.Not {
+				sb.WriteString("<" + v.URL + ">")
+			} else {
+				sb.WriteString(v.URL)
+			}
+		case Mail:
+			sb.WriteString(v.Addr)
 		case Link:
 			sb.WriteString(plain(v.C))
 		case Image:
@@ -194,7 +202,7 @@ func renderInl(in []Inline) string {
 		case Strong:
 			sb.WriteString("<strong>" + renderInl(v.C) + "</strong>")
 		case Code:
-			sb.WriteString("<code>" + esc(v.S) + "</code>")
+			sb.WriteString("<code>" + esc(strings.ReplaceAll(v.S, "\n", " ")) + "</code>") // a line ending inside a code span reads as a space
 		case Link:
 			sb.WriteString(`<a href="` + esc(urlEsc(v.Dest.val())) + `"`)
 			if v.Title != nil {
